@@ -89,3 +89,10 @@ impl NegSpecImpl for IBig {
     open spec fn neg_req(self) -> bool { true }
     open spec fn neg_spec(self) -> IBig { ibig_of(-self.v()) }
 }
+// float/src/sign.rs `impl Neg for Repr<B>`: `self.significand = -self.significand; self`
+impl<const B: Word> Neg for Repr<B> { type Output = Repr<B>; #[verifier::external_body] fn neg(self) -> Repr<B> { unimplemented!() } }
+impl<const B: Word> NegSpecImpl for Repr<B> {
+    open spec fn obeys_neg_spec() -> bool { true }
+    open spec fn neg_req(self) -> bool { true }
+    open spec fn neg_spec(self) -> Repr<B> { Repr { significand: ibig_of(-self.significand.v()), exponent: self.exponent } }
+}
